@@ -231,6 +231,22 @@ impl<'tcx> Cx<'tcx> {
                 _ => {}
             }
         }
+        if matches!(kind, DefKind::Fn | DefKind::AssocFn | DefKind::Closure) {
+            // generic parameter names in substitution order (parents first)
+            let mut names: Vec<J> = Vec::new();
+            let mut chain = vec![tcx.generics_of(d)];
+            while let Some(p) = chain.last().unwrap().parent {
+                chain.push(tcx.generics_of(p));
+            }
+            for g in chain.iter().rev() {
+                for p in &g.own_params {
+                    if !matches!(p.kind, ty::GenericParamDefKind::Lifetime) {
+                        names.push(s(p.name.to_string()));
+                    }
+                }
+            }
+            o.push(("generics", J::Arr(names)));
+        }
         if matches!(kind, DefKind::Fn | DefKind::AssocFn) {
             let vis = tcx.visibility(d);
             o.push(("public", J::Bool(vis.is_public())));
